@@ -1,0 +1,9 @@
+//go:build !verif
+
+// Package verifhook provides named schedule/crash points for external
+// verification harnesses. Without the "verif" build tag every point is a
+// no-op that the compiler removes.
+package verifhook
+
+// Point marks a named place in the code. No-op in normal builds.
+func Point(name string) {}
